@@ -23,6 +23,7 @@ pub enum Step {
     Lie(usize),       // claims this many bytes (within the buffer) without writing any
     InterruptBurst(usize),        // this many interruptions in a row (logged as ONE event with a count)
     Alternate(usize, usize),      // count x (one interruption, then n bytes) (logged as ONE event)
+    DeliverRun(usize, usize),     // count x (n bytes), no interruptions (logged as ONE okp_run event)
 }
 
 /// A reader that follows a script and logs every read call.
@@ -34,6 +35,7 @@ pub struct ScriptReader {
     pub log: Vec<String>,
     pub burst_left: usize,
     pub alt: (usize, usize, bool), // (repetitions left, n, next answer is the interruption)
+    pub alt_plain: bool,           // the run has no interruptions
 }
 
 pub enum Content {
@@ -126,7 +128,7 @@ impl Read for ScriptReader {
             return Err(std::io::Error::new(ErrorKind::Interrupted, "scripted interruption"));
         }
         if self.alt.0 > 0 {
-            if self.alt.2 {
+            if self.alt.2 && !self.alt_plain {
                 self.alt.2 = false;
                 return Err(std::io::Error::new(ErrorKind::Interrupted, "scripted interruption"));
             }
@@ -204,7 +206,27 @@ impl Read for ScriptReader {
                     buf.len(), n, count, bytes_json(&pat), off >> 16, off & 0xffff
                 ));
                 self.alt = (count, n, false);
+                self.alt_plain = false;
                 Err(std::io::Error::new(ErrorKind::Interrupted, "scripted interruption"))
+            }
+            Step::DeliverRun(count, n) => {
+                let (pat, off) = match &self.data {
+                    Content::Periodic(p, _) => (p.clone(), self.off),
+                    _ => panic!("DeliverRun needs periodic content"),
+                };
+                self.log.push(format!(
+                    "{{\"e\":\"read\",\"buflen\":{},\"ret\":{{\"kind\":\"okp_run\",\"n\":{},\"count\":{},\"pat\":{},\"off\":[{},{}]}}}}",
+                    buf.len(), n, count, bytes_json(&pat), off >> 16, off & 0xffff
+                ));
+                self.alt = (count, n, false);
+                self.alt_plain = true;
+                // the first delivery of the run is this very call
+                for (i, b) in buf[..n].iter_mut().enumerate() {
+                    *b = pat[(off + i) % pat.len()];
+                }
+                self.off += n;
+                self.alt.0 -= 1;
+                Ok(n)
             }
             Step::Lie(k) => {
                 let n = k.max(1).min(buf.len());
@@ -238,7 +260,7 @@ fn outcome_json(o: &Obs<Result<Vec<u8>, (String, String)>>) -> String {
 pub fn run_stream(out: &mut Out, v: &dyn Var, content: Content, script: Vec<Step>, use_plain: bool) {
     let small = content.len() <= 70_000 && !script.iter().any(|st| matches!(st, Step::Lie(_)));
     let all = if small { Some(content.materialize()) } else { None };
-    let mut rd = ScriptReader { script, pos: 0, data: content, off: 0, log: Vec::new(), burst_left: 0, alt: (0, 0, true) };
+    let mut rd = ScriptReader { script, pos: 0, data: content, off: 0, log: Vec::new(), burst_left: 0, alt: (0, 0, true), alt_plain: false };
     out.emit(Ev::new("stream_begin").str("v", v.name()).meas(0, ""));
     let o = if use_plain {
         // tlsh::hash_stream (the Normal variant)
@@ -378,7 +400,10 @@ pub fn run_c12(out: &mut Out, rng: &mut Rng, thorough: bool, only: Option<&str>,
             let big = if thorough { 1usize << 24 } else { 70_000 };
             run_stream(out, *v, Content::Periodic(pat.clone(), 5000), vec![Step::InterruptBurst(big), Step::Deliver(3000), Step::InterruptBurst(70_000), Step::Deliver(2000), Step::Eof], false);
             let n = 1 + rng.below(3) as usize;
-            run_stream(out, *v, Content::Periodic(pat, 66_000 * n + 100), vec![Step::Deliver(100), Step::Alternate(66_000, n), Step::Eof], false);
+            run_stream(out, *v, Content::Periodic(pat.clone(), 66_000 * n + 100), vec![Step::Deliver(100), Step::Alternate(66_000, n), Step::Eof], false);
+            // more read calls than 2^12, 2^16, 2^20 (each delivering 1 - 3 bytes), without interruptions
+            let many = (1usize << 20) + 4099;
+            run_stream(out, *v, Content::Periodic(pat, many * n + 64), vec![Step::Deliver(64), Step::DeliverRun(many, n), Step::Eof], false);
         }
     }
     files(out, rng, thorough, only);
@@ -545,7 +570,7 @@ pub fn replay(path: &str, out: &mut Out) -> u64 {
         let total = content.len();
         // a Deliver step on exhausted content would answer EOF: keep one spare byte so that it cannot happen
         content.push(0);
-        let mut rd = ScriptReader { script, pos: 0, data: Content::Explicit(content), off: 0, log: Vec::new(), burst_left: 0, alt: (0, 0, true) };
+        let mut rd = ScriptReader { script, pos: 0, data: Content::Explicit(content), off: 0, log: Vec::new(), burst_left: 0, alt: (0, 0, true), alt_plain: false };
         let o = v.hash_stream(&mut rd);
         let got: Value = serde_json::from_str(&outcome_json(&o)).unwrap();
         let mut why: Vec<String> = Vec::new();
